@@ -177,13 +177,20 @@ class Report(object):
             print("KNOWN-FINDING: property=%s %s %s (%d cases this run)" % (self.prop, i, f_["what"], n))
         if self.violations:
             os.makedirs(REPLAYS, exist_ok=True)
-            for n, (c, v) in enumerate(self.violations[:5]):
+            seen, first, rest = set(), [], []
+            for cv in self.violations:        # one replay per distinct clause first
+                (rest if cv[1].get("clause") in seen else first).append(cv)
+                seen.add(cv[1].get("clause"))
+            for n, (c, v) in enumerate((first + rest)[:6]):
                 path = os.path.join(REPLAYS, "%s_%d_%d.json" % (self.prop, seed(), n))
                 with open(path, "w") as f:
                     json.dump({"property": self.prop, "case": c, "verdict": v}, f, indent=1)
                 print("VIOLATION property=%s replay=%s" % (self.prop, path))
                 print("  clause=%s step=%s expected=%s got=%s" % (v.get("clause"), v.get("step"),
                                                                  str(v.get("exp"))[:200], str(v.get("got"))[:200]))
+            import collections
+            hist = collections.Counter(v.get("clause") for _, v in self.violations)
+            print("  clauses: %s" % dict(hist))
             print("%s: %d violation(s) in %d cases" % (self.prop, len(self.violations), self.traces))
             return 1
         print("%s: ok  (%d model states, %d traces validated, %d excused by known findings, %.0fs)"
